@@ -588,6 +588,58 @@ def run_validator_case(cls_name, own, role, other):
     return ("accepted" if accept else "refused-as-required"), None
 
 
+def run_shape_ctor_case(which):
+    """constructors over a dimension set with two NAMESAKE dimensions of different length, and the scalar constructor:
+    the shape follows the dimensions' lengths in order; any other ndarray shape is refused"""
+    import flodym
+    from flodym import Dimension, DimensionSet, FlodymArray
+
+    case = dict(kind="shape-ctor", which=which)
+
+    def fail(what):
+        return "fail", dict(case=case, tags=dict(kind="shape-ctor", which=which), what=f"{which}: {what}")
+
+    if which.startswith("namesake"):
+        o = Dimension(name="Region", letter="o", items=["EU", "US"])
+        d = Dimension(name="Region", letter="d", items=["EU", "US", "CN"])
+        st, ds = attempt(lambda: DimensionSet(dim_list=[o, d] if which == "namesake-od" else [d, o]))
+        if st == "raised":
+            return "refused-as-required", None  # refusing two dimensions of one name is fine
+        shape = (2, 3) if which == "namesake-od" else (3, 2)
+        if tuple(ds.shape) != shape:
+            return fail(f"shape of the set {tuple(ds.shape)}, lengths in order {shape}")
+        makers = dict(zeros=lambda: FlodymArray(dims=ds), full=lambda: FlodymArray.full(ds, 2.5), good=lambda: FlodymArray(dims=ds, values=np.ones(shape)), par=lambda: flodym.Parameter(dims=ds, values=np.ones(shape), name="par"))
+        for nm, mk in makers.items():
+            st, a = attempt(mk)
+            if st == "raised":
+                return fail(f"{nm}: a consistent construction raised {a}")
+            if tuple(a.values.shape) != shape or tuple(a.dims.shape) != shape:
+                return fail(f"{nm}: values shape {a.values.shape}, dims shape {tuple(a.dims.shape)}, lengths in order {shape}")
+        a = FlodymArray(dims=ds)
+        for bad in (shape[::-1], (2, 2), (3, 3), (6,)):
+            if attempt(lambda: FlodymArray(dims=ds, values=np.ones(bad)))[0] != "raised":
+                return fail(f"constructor accepted values of shape {bad} for lengths {shape}")
+            if attempt(lambda: a.set_values(np.ones(bad)))[0] != "raised" or tuple(a.values.shape) != shape:
+                return fail(f"set_values accepted / stored values of shape {bad} for lengths {shape}")
+            if attempt(lambda: a.__setitem__(Ellipsis, np.ones(bad)))[0] != "raised" or tuple(a.values.shape) != shape:
+                return fail(f"[...] = ndarray of shape {bad} accepted for lengths {shape}")
+        st, info = attempt(lambda: a.set_values(np.full(shape, 4.0)))
+        if st == "raised" or tuple(a.values.shape) != shape:
+            return fail(f"set_values with the exact shape {shape} raised / stored {a.values.shape}: {info}")
+        return "ok", None
+    # scalar constructor
+    for cls in (FlodymArray, flodym.Parameter):
+        for good in (5.0, 3, np.float64(2.5), np.array(7.0)):
+            st, a = attempt(lambda: cls.scalar(good))
+            if st == "raised" or tuple(a.values.shape) != () or a.dims.ndim != 0:
+                return fail(f"{cls.__name__}.scalar({good!r}) -> {a if st == 'raised' else a.values.shape}")
+        for bad in (np.array([5.0]), np.array([[5.0]]), np.array([1.0, 2.0]), np.ones((1, 1, 1))):
+            st, a = attempt(lambda: cls.scalar(bad))
+            if st != "raised":
+                return fail(f"{cls.__name__}.scalar(ndarray of shape {bad.shape}) was accepted (values shape {a.values.shape}) instead of rejected")
+    return "ok", None
+
+
 def run_failcompute_case(solver, fault, where, npr):
     """a compute() that raises (singular survival table or NaN for ONE label, parameters missing) must
     leave stock, inflow and outflow exactly as they were"""
@@ -690,6 +742,13 @@ def units(tier, seed):
 def run_unit(u):
     if u["kind"] == "failcompute":
         res = dict(evals=0, nontrivial=0, outcomes={}, fails=[], samples=[], states=0, transitions=0, traces=0)
+        for which in ("namesake-od", "namesake-do", "scalar"):
+            oc, f = run_shape_ctor_case(which)
+            res["evals"] += 1
+            res["nontrivial"] += 1
+            res["outcomes"][oc] = res["outcomes"].get(oc, 0) + 1
+            if f:
+                res["fails"].append(f)
         for c in failcompute_cases():
             oc, f = run_failcompute_case(*c)
             res["evals"] += 1
@@ -723,6 +782,9 @@ def run_unit(u):
 
 
 def replay(case):
+    if case["kind"] == "shape-ctor":
+        oc, f = run_shape_ctor_case(case["which"])
+        return [f] if f else []
     if case["kind"] == "failcompute":
         oc, f = run_failcompute_case(case["solver"], case["fault"], case["where"], case["npr"])
         return [f] if f else []
